@@ -60,26 +60,26 @@ extras = {
  'C12': "The transaction store uses an internal clock (field `clock` in wtxmgr.Store, of type github.com/lightningnetwork/lnd/clock.Clock); a demo test inside package wtxmgr can replace it with clock.NewTestClock to control time.",
 }
 prev = {
- 'C01': ['deleteRawUnminedInput wiping all spenders of an outpoint on a repeated abandon', 'removeConflict/removeDoubleSpends not following descendants that spend a non-credited output of the removed transaction', 'addCredit treating an already-spent confirmed credit as unknown when its confirmation is delivered again', 'Store.Balance subtracting a leased output twice when an unconfirmed transaction also spends it', 'unspendRawCredit leaving the on-disk spent bit set (Balance with minconf >= 2 over-reports after a reorged spend is dropped)'],
- 'C02': ['removeConflict skipping descendants that spend non-credited outputs', 'Rollback restoring only some of the spent credits when several were mined in different surviving blocks', 'insertMemPoolTx not indexing inputs that spend transactions unknown to the store (conflict on a foreign outpoint)', "rollback / updateMinedBalance copying raw credit bytes so that the mined 'spent' flag survives disconnect and reconnect", 'deleteRawUnminedInput writing back the unfiltered spender list'],
- 'C03': ['deriveAccountKey using Derive instead of DeriveNonStandard (legacy rule) for account 0', 'imported xpub account losing its address-schema override after restart / cache eviction', 'extendAddresses deciding watch-only from acctKeyPriv == nil (addresses extended while locked never get their key after unlock)', 'importPublicKey keying taproot imports by the untweaked internal key', 'ImportAccountDryRun invalidating the account cache before, not after, deriving its preview addresses'],
- 'C04': ['ConvertToWatchingOnly setting the in-memory watch-only flag before the writes (fault + retry)', 'wallet-level InitAccounts(watchOnly) skipping conversion when the requested account already exists', 'ChangePassphrase zeroing the live private crypto key through an aliasing Bytes() (later imports sealed under an all-zero key)', 'ImportPrivateKey no longer refusing while locked (key sealed under the zeroed crypto key)', '32-byte address ids used un-hashed as bucket keys'],
- 'C05': ['ChangePassphrase hashing the new passphrase with the old salt (Unlock while already unlocked fails)', 'lock() zeroing only the first cached derived key of a scope', 'scriptAddress.Script() skipping the lock check when its clear text is cached (objects from ForEachAccountAddress are never wiped)', 'selectCryptoKey gating only CKTPrivate (CKTScript usable while locked)', 'extendAddresses queueing watch-only-account addresses for key derivation while locked (Unlock then panics)'],
- 'C06': ['makeInputSource no longer consuming coins between calls (duplicate inputs on re-selection)', 'rebroadcast answered "already in mempool" making the wallet forget the transaction so its inputs get selected again', 'findEligibleOutputs overwriting the minconf target with the coinbase maturity instead of taking the larger', 'disconnectBlock off-by-one ignoring the disconnect of the current tip block', 'removeConflict deleting the whole unmined-inputs record of an outpoint instead of its own hash'],
- 'C07': ['NewUnsignedTransaction input-type counters not reset per selection round', 'change output appended into spare capacity of the caller\'s outputs slice (aliasing)', 'EstimateVirtualSize not counting taproot inputs when deciding whether the transaction has witness data', 'wallet input source restarting at coin 0 on its second call (same coin selected twice)', 'FeeForSerializeSize dividing the rate by 1000 before multiplying by the size'],
- 'C08': ['RenameAccount swapping next external/internal index arguments when rewriting the account row', 'SetSyncedTo updating the in-memory tip although the database write was refused', 'nextAddresses commit callback advancing the cached index relatively (two requests in one database transaction)', 'ImportAccountDryRun invalidating its cached account only when the dry run succeeds', "failed recovery batch invalidating only default scopes' account caches"],
- 'C09': ['FundPsbt (explicit inputs path) no longer taking newAddrMtx', 'txToOutputs releasing newAddrMtx before the change address commit/OnCommit window closes', "loadAccountInfo loading a watch-only account's internal counter from the external one", "RenameAccount rewriting the account row from cached counters (race with an issuer's commit callback)", 'newAddress dropping the cached account between issuance and the commit callback (concurrent readers re-cache the old counter)'],
- 'C10': ['err shadowing in insertMinedTx so a failed block-record rewrite is swallowed', 'ChangePassphrase ignoring the error of its last write', 'NewScopedKeyManager registering the scope in memory before its last write', 'MarkUsed keeping the scope mutex on its failed-write return path', "rollback treating a failed unspend write as 'credit already gone'"],
- 'C11': ['db.Update committing when the closure panics', 'bucket.Put dropping writes of empty values to absent keys', 'db.Batch caching the first result of the function (lost when bbolt re-runs it after a sibling failed)', 'NestedReadBucket returning a typed-nil bucket for a missing name', 'bucket.ForEach stopping at the first nested bucket'],
- 'C12': ['Balance double-subtracting a leased output that is below minconf', 'a confirmed spend not removing the lease when a foreign input comes first', 'isKnownOutput accepting any outpoint whose hash is an unmined transaction (lease of a non-credit output)', 'DeleteExpiredLockedOutputs collecting pointers to a reused loop variable (sweep deletes the wrong lease)', 'lease expiry rounded instead of floored when persisted'],
- 'C13': ['unminedTxDetails Spent flag sticking across credits of the same unmined tx', 'reverse RangeTransactions starting above the requested height when that height has no block record', 'removeConflict leaving the unmined-input entry when the previous output is not a live credit at that moment (stale spent flag)', "rollback writing the unmined credit's change flag from the mined-spent bit", 'updateMinedBalance breaking out of its input loop at the first non-wallet input'],
- 'C14': ['makeGraph counting in-degree per input but adding the out-edge once', 'dependency sort skipped when no unmined credit is spent', 'resendUnminedTxs break instead of continue on a rejected transaction', 'NewTxRecordFromMsgTx using the witness hash as the record hash', 'rollback keying the unmined-input marker by input position instead of prevout index'],
- 'C15': ['SetSyncedTo updating the cached tip before the database write', 'start-up reorg check stopping one block short of the fork point', "disconnectBlock deciding 'known block' from a stored hash only (stale hashes above the tip)", 'rollback never deleting the mined record of a detached coinbase', 'connectBlock refusing every block that is not tip+1 (reorg during the start-up rescan)'],
- 'C16': ['watched outpoints of a recovery batch only recorded when more blocks remain in the batch', 'Resurrect seeding the internal branch with the external key count', 'recovery committing SetSyncedTo of a batch before scanning it (failed scan + retry skips the batch)', 'extendAddresses always using the external address type (BIP49Plus change addresses persisted with the wrong type)', 'newFilterBlocksRequest only watching indices within W of the frontier'],
- 'C17': ['Decrypt length guard off by one (empty plaintext)', 'scrypt error swallowed by a shadowed err in deriveKey', 'ChangePassphrase (unlocked) caching the hash of the OLD passphrase', 'Unlock hashing the passphrase in a fixed 128-byte buffer (long passphrases truncated in the already-unlocked shortcut)', 'nonce built from a process prefix plus a counter read back non-atomically'],
- 'C18': ['queue worker handing a new item directly to chanOut although the overflow list is non-empty', 'Stop() losing the stop signal when the worker is not parked', 'worker busy-spinning on a full out channel while draining the overflow list (ignores input and quit)', 'BitcoindClient.Start resetting its started flag on a backend error (second queue worker on retry)', 'BitcoindClient.Stop returning before stopping the queue when the client never subscribed to blocks'],
- 'C19': ['GetLatestVersion no longer sorting + VersionsToApply comparator reading the wrong slice', 'a failed migration forgotten when a later one succeeds', 'Upgrade returning at the first service that is already up to date', 'wtxmgr MigrationManager.Versions filtering the package-level table in place', 'OpenWithRetry upgrading the transaction store in its own database transaction first'],
- 'C20': ['resendUnminedTxs breaking out of the loop on the first rejection', 'rejected broadcast keeping descendants that spend a non-credited output', 'requireChainClient guard moved behind the database update in reliablyPublishTransaction', 'makeGraph de-duplicating out-edges but counting every input (children with two inputs from one parent never released)', "new early return for 'mempool min fee not met' that skips the rejection clean-up"],
+ 'C01': ['deleteRawUnminedInput wiping all spenders of an outpoint on a repeated abandon', 'removeConflict/removeDoubleSpends not following descendants that spend a non-credited output of the removed transaction', 'addCredit treating an already-spent confirmed credit as unknown when its confirmation is delivered again', 'Store.Balance subtracting a leased output twice when an unconfirmed transaction also spends it', 'unspendRawCredit leaving the on-disk spent bit set (Balance with minconf >= 2 over-reports after a reorged spend is dropped)', "rollback looking up the debit of a detached spender with the transaction's position in its block instead of the input index"],
+ 'C02': ['removeConflict skipping descendants that spend non-credited outputs', 'Rollback restoring only some of the spent credits when several were mined in different surviving blocks', 'insertMemPoolTx not indexing inputs that spend transactions unknown to the store (conflict on a foreign outpoint)', "rollback / updateMinedBalance copying raw credit bytes so that the mined 'spent' flag survives disconnect and reconnect", 'deleteRawUnminedInput writing back the unfiltered spender list', 'Rollback returning early when the rollback height itself has no block record'],
+ 'C03': ['deriveAccountKey using Derive instead of DeriveNonStandard (legacy rule) for account 0', 'imported xpub account losing its address-schema override after restart / cache eviction', 'extendAddresses deciding watch-only from acctKeyPriv == nil (addresses extended while locked never get their key after unlock)', 'importPublicKey keying taproot imports by the untweaked internal key', 'ImportAccountDryRun invalidating the account cache before, not after, deriving its preview addresses', 'DeriveFromKeyPathCache returning a pointer into its cache entry'],
+ 'C04': ['ConvertToWatchingOnly setting the in-memory watch-only flag before the writes (fault + retry)', 'wallet-level InitAccounts(watchOnly) skipping conversion when the requested account already exists', 'ChangePassphrase zeroing the live private crypto key through an aliasing Bytes() (later imports sealed under an all-zero key)', 'ImportPrivateKey no longer refusing while locked (key sealed under the zeroed crypto key)', '32-byte address ids used un-hashed as bucket keys', 'non-secret witness / taproot scripts stored without encryption'],
+ 'C05': ['ChangePassphrase hashing the new passphrase with the old salt (Unlock while already unlocked fails)', 'lock() zeroing only the first cached derived key of a scope', 'scriptAddress.Script() skipping the lock check when its clear text is cached (objects from ForEachAccountAddress are never wiped)', 'selectCryptoKey gating only CKTPrivate (CKTScript usable while locked)', 'extendAddresses queueing watch-only-account addresses for key derivation while locked (Unlock then panics)', 'ConvertToWatchingOnly locking only an already locked manager'],
+ 'C06': ['makeInputSource no longer consuming coins between calls (duplicate inputs on re-selection)', 'rebroadcast answered "already in mempool" making the wallet forget the transaction so its inputs get selected again', 'findEligibleOutputs overwriting the minconf target with the coinbase maturity instead of taking the larger', 'disconnectBlock off-by-one ignoring the disconnect of the current tip block', 'removeConflict deleting the whole unmined-inputs record of an outpoint instead of its own hash', 'insertMemPoolTx releasing the lease of every output an unconfirmed transaction spends'],
+ 'C07': ['NewUnsignedTransaction input-type counters not reset per selection round', 'change output appended into spare capacity of the caller\'s outputs slice (aliasing)', 'EstimateVirtualSize not counting taproot inputs when deciding whether the transaction has witness data', 'wallet input source restarting at coin 0 on its second call (same coin selected twice)', 'FeeForSerializeSize dividing the rate by 1000 before multiplying by the size', 'imported-account change taken from the taproot scope while sized for the requested scope'],
+ 'C08': ['RenameAccount swapping next external/internal index arguments when rewriting the account row', 'SetSyncedTo updating the in-memory tip although the database write was refused', 'nextAddresses commit callback advancing the cached index relatively (two requests in one database transaction)', 'ImportAccountDryRun invalidating its cached account only when the dry run succeeds', "failed recovery batch invalidating only default scopes' account caches", 'extendAddresses caching an extended internal address as the last EXTERNAL address'],
+ 'C09': ['FundPsbt (explicit inputs path) no longer taking newAddrMtx', 'txToOutputs releasing newAddrMtx before the change address commit/OnCommit window closes', "loadAccountInfo loading a watch-only account's internal counter from the external one", "RenameAccount rewriting the account row from cached counters (race with an issuer's commit callback)", 'newAddress dropping the cached account between issuance and the commit callback (concurrent readers re-cache the old counter)', 'Manager.Unlock dropping and reloading cached accounts from its read snapshot while issuers are in flight'],
+ 'C10': ['err shadowing in insertMinedTx so a failed block-record rewrite is swallowed', 'ChangePassphrase ignoring the error of its last write', 'NewScopedKeyManager registering the scope in memory before its last write', 'MarkUsed keeping the scope mutex on its failed-write return path', "rollback treating a failed unspend write as 'credit already gone'", 'extendAddresses advancing the in-memory index per address inside the write loop'],
+ 'C11': ['db.Update committing when the closure panics', 'bucket.Put dropping writes of empty values to absent keys', 'db.Batch caching the first result of the function (lost when bbolt re-runs it after a sibling failed)', 'NestedReadBucket returning a typed-nil bucket for a missing name', 'bucket.ForEach stopping at the first nested bucket', 'top-level bucket look-ups memoised per transaction and never invalidated'],
+ 'C12': ['Balance double-subtracting a leased output that is below minconf', 'a confirmed spend not removing the lease when a foreign input comes first', 'isKnownOutput accepting any outpoint whose hash is an unmined transaction (lease of a non-credit output)', 'DeleteExpiredLockedOutputs collecting pointers to a reused loop variable (sweep deletes the wrong lease)', 'lease expiry rounded instead of floored when persisted', "LockOutput treating the all-zero LockID as 'not leased'"],
+ 'C13': ['unminedTxDetails Spent flag sticking across credits of the same unmined tx', 'reverse RangeTransactions starting above the requested height when that height has no block record', 'removeConflict leaving the unmined-input entry when the previous output is not a live credit at that moment (stale spent flag)', "rollback writing the unmined credit's change flag from the mined-spent bit", 'updateMinedBalance breaking out of its input loop at the first non-wallet input', 'insertMemPoolTx writing the unmined-input marker only when the previous output is currently a wallet credit'],
+ 'C14': ['makeGraph counting in-degree per input but adding the out-edge once', 'dependency sort skipped when no unmined credit is spent', 'resendUnminedTxs break instead of continue on a rejected transaction', 'NewTxRecordFromMsgTx using the witness hash as the record hash', 'rollback keying the unmined-input marker by input position instead of prevout index', "DependencySort's ready queue sharing a backing array between generations"],
+ 'C15': ['SetSyncedTo updating the cached tip before the database write', 'start-up reorg check stopping one block short of the fork point', "disconnectBlock deciding 'known block' from a stored hash only (stale hashes above the tip)", 'rollback never deleting the mined record of a detached coinbase', 'connectBlock refusing every block that is not tip+1 (reorg during the start-up rescan)', 'SetChainSynced(true) moved from the notification handler into the rescan-progress goroutine'],
+ 'C16': ['watched outpoints of a recovery batch only recorded when more blocks remain in the batch', 'Resurrect seeding the internal branch with the external key count', 'recovery committing SetSyncedTo of a batch before scanning it (failed scan + retry skips the batch)', 'extendAddresses always using the external address type (BIP49Plus change addresses persisted with the wrong type)', 'newFilterBlocksRequest only watching indices within W of the frontier', 'BlockFilterer.FilterTx short-circuiting the output scan when an input already matched'],
+ 'C17': ['Decrypt length guard off by one (empty plaintext)', 'scrypt error swallowed by a shadowed err in deriveKey', 'ChangePassphrase (unlocked) caching the hash of the OLD passphrase', 'Unlock hashing the passphrase in a fixed 128-byte buffer (long passphrases truncated in the already-unlocked shortcut)', 'nonce built from a process prefix plus a counter read back non-atomically', 'Manager.Encrypt/Decrypt releasing the manager lock before using the selected key'],
+ 'C18': ['queue worker handing a new item directly to chanOut although the overflow list is non-empty', 'Stop() losing the stop signal when the worker is not parked', 'worker busy-spinning on a full out channel while draining the overflow list (ignores input and quit)', 'BitcoindClient.Start resetting its started flag on a backend error (second queue worker on retry)', 'BitcoindClient.Stop returning before stopping the queue when the client never subscribed to blocks', 'overflow head removed when the select is entered instead of when the send case fires'],
+ 'C19': ['GetLatestVersion no longer sorting + VersionsToApply comparator reading the wrong slice', 'a failed migration forgotten when a later one succeeds', 'Upgrade returning at the first service that is already up to date', 'wtxmgr MigrationManager.Versions filtering the package-level table in place', 'OpenWithRetry upgrading the transaction store in its own database transaction first', 'wtxmgr.Open accepting any version for which no migration is pending (newer stores accepted)'],
+ 'C20': ['resendUnminedTxs breaking out of the loop on the first rejection', 'rejected broadcast keeping descendants that spend a non-credited output', 'requireChainClient guard moved behind the database update in reliablyPublishTransaction', 'makeGraph de-duplicating out-edges but counting every input (children with two inputs from one parent never released)', "new early return for 'mempool min fee not met' that skips the rejection clean-up", 'deleteRawUnminedInput deleting a single recorded spender without comparing it with the target hash'],
 }
 for l in open('/verif/properties.jsonl'):
     p = json.loads(l); i = p['id']
